@@ -359,7 +359,9 @@ fn run_case(lib: &Lib, id: &Value, name: &str, args: &[Value], pred: &Value, is_
         }
     }
     if k(&p_out) == "value" && k(&h_out) == "value" && strip_tags(&p_out["v"]) != strip_tags(&h_out["v"])
-        && !(name.starts_with("std.io.") || name.starts_with("std.fs.") || name == "std.convert.to_string") {
+        && !(name.starts_with("std.io.") || name.starts_with("std.fs.")
+             // (the text of a function or of a cell holding one is not a function of the value's content)
+             || (name == "std.convert.to_string" && { let t = serde_json::to_string(args).unwrap_or_default(); t.contains("\"fnv\"") || t.contains("\"cell\"") })) {
         mm.push("routes", json!({"id": id, "name": name, "program": text, "args": args, "prog": p_out["v"], "host": h_out["v"]}));
     }
     if samples.len() < 4 && k(pred) == "exact" && id.as_u64().unwrap_or(0) % 577 == 3 {
